@@ -16,7 +16,7 @@ EXPLANATION = (
     "read TypeChecker.types or a variable's inferred type/kind (they use the checker only for variables.len() and the "
     "name/is_global/id of `start`) and never call a TypeChecker method; (INERT-ORDER) the only place where annotations "
     "influence ordering (ty_dependency edges) can only move statements that produce no code: type declarations lower to "
-    "nothing; (NO-ALLOCATION) resolving a type allocates no variable (Resolver::ty / type_vec / ty_assignable / "
+    "nothing; (ANNOTATION-FRESH) an annotation naming a declared type denotes a fresh instance, never the declaration's own node; (NO-ALLOCATION) resolving a type allocates no variable (Resolver::ty / type_vec / ty_assignable / "
     "namespace_type_list take &self and call neither new_var nor push_var) and variable ids are the allocation index, so "
     "numbering is the same with and without annotations; (ANNOTATION-INERT) inside name resolution an annotation is only "
     "ever handed to the type-resolving functions, never inspected, so scoping and declaration order cannot depend on it; (SAME-NODE) the parser produces the same statement kind with and "
@@ -47,6 +47,58 @@ def run(F, rep, tier):
     unknown_is_deferred(F, rep)
     erased_return_type(F, rep)
     checker_annotation_blind(F, rep)
+    annotation_is_a_fresh_instance(F, rep)
+
+
+def annotation_is_a_fresh_instance(F, rep):
+    """An annotation naming a blob or enum must denote a *fresh instance* of the declared type: whatever the annotated
+    value then pins down (an open `*` field, the purity of an `fn` field) is a fact about that value.  If the annotation
+    resolved to the declaration's own node, the first annotated use would refine the declaration for every later use - the
+    annotated program is rejected where the erased one (which instantiates per literal) is accepted."""
+    import tc
+    from flow import Flow
+    TC_ = "sylt_compiler::typechecker::TypeChecker::"
+    firt = F.fn(TC_ + "inner_resolve_type")
+    rep.analysed(firt)
+    fl = Flow(firt, fn_body(firt))
+    arms = tc.arm_of(F, firt, NR + "Type", "UserType")
+    if not arms:
+        rep.anchor_missing("inner_resolve_type UserType arm")
+        return
+
+    def fresh(e, depth=0):
+        """is the TyID expression e the result of self.copy(..) on every path"""
+        e = peel(e)
+        if depth > 8 or not isinstance(e, dict):
+            return False
+        if e.get("k") == "MethodCall" and callee(e) == TC_ + "copy":
+            return True
+        if e.get("k") == "Path" and e.get("res") == "Local":
+            o = fl.origin.get(e["hid"])
+            return bool(o and o["kind"] == "let" and o["path"] == () and o["src"] is not None and fresh(o["src"], depth + 1))
+        if e.get("k") == "Match":
+            vals = [tc.n_tail(a["body"]) for a in e["arms"] if not tc.is_err_value(a["body"])]
+            return bool(vals) and all(fresh(v, depth + 1) for v in vals)
+        if e.get("k") == "If":
+            return e.get("e") is not None and fresh(tc.n_tail(e["t"]), depth + 1) and fresh(tc.n_tail(e["e"]), depth + 1)
+        if e.get("k") == "Block":
+            return fresh(tc.n_tail(e), depth + 1)
+        return False
+    arm = arms[0][0]
+    rets = []
+    for r in nodes(arm["body"], "Ret"):
+        v = peel(r.get("e") or {})
+        if v.get("k") == "Call" and (callee(v) or "").endswith("Result::Ok") and v["args"]:
+            rets.append(v["args"][0])
+    t = tc.n_tail(arm["body"])
+    if isinstance(t, dict) and t.get("k") == "Call" and (callee(t) or "").endswith("Result::Ok") and t["args"]:
+        rets.append(t["args"][0])
+    ok = bool(rets) and all(fresh(r) for r in rets)
+    rep.ob("ANNOTATION-FRESH", "inner_resolve_type|UserType|every-path-copies", ok,
+           "an annotation naming a declared type resolves to a fresh copy of it on every path (%d result(s))" % len(rets) if ok else
+           "an annotation naming a declared type can resolve to the declaration's own node (not a copy): what the annotated value "
+           "pins down (a `*` field, the purity of an `fn` field) then sticks to the declaration, and a later differing use is "
+           "rejected only in the annotated program", line_of(arm))
 
 
 def no_type_flow(F, rep):
